@@ -192,6 +192,34 @@ def make_stream(ss):
     return GherkinEvents(GherkinEvents.Options(print_source=o[0], print_ast=o[1], print_pickles=o[2]))
 
 
+_JOURNAL = {}
+
+
+def make_generator(cfg):
+    """The shipped IdGenerator, or (genclass 'journal') a user-style subclass of it: overrides get_next_id,
+    keeps a journal of what it issued and has a length - so it is falsy while fresh."""
+    from gherkin.stream.id_generator import IdGenerator
+    if cfg.get("genclass") != "journal":
+        return IdGenerator()
+    cls = _JOURNAL.get(IdGenerator)
+    if cls is None:
+        class JournalingIdGenerator(IdGenerator):
+            def __init__(self):
+                super().__init__()
+                self.journal = []
+
+            def get_next_id(self):
+                v = super().get_next_id()
+                self.journal.append(v)
+                return v
+
+            def __len__(self):
+                return len(self.journal)
+
+        cls = _JOURNAL[IdGenerator] = JournalingIdGenerator
+    return cls()
+
+
 def build_fs(spec):
     cfg = spec.get("cfg", {})
     fsd = spec.get("fs") or {}
@@ -303,7 +331,10 @@ def run_parse(ctx, parser, matcher, text, first, src, path=None):
     r0, t0, d0 = ctx.reads, ctx.toks, len(ctx.draws)
     dirty = probe_dirty(parser, matcher)
     try:
-        parser.stop_at_first_error = bool(first)
+        # a caller sets the flag when it wants another mode, not before every parse: a flag the code flipped itself stays visible
+        if getattr(parser, "_sim_mode", False) != bool(first):
+            parser.stop_at_first_error = bool(first)
+            parser._sim_mode = bool(first)
         if src == "str":
             source = text
         else:
@@ -559,8 +590,7 @@ class Run:
         use_kernel = ntasks > 1 or spec.get("force_kernel", False)
         env = seams.RunEnv(kernel=None, fs=fs, flavour=cfg.get("flavour", "inc"), salt=cfg.get("salt", 0))
         with seams.swap_env(env):
-            from gherkin.stream.id_generator import IdGenerator
-            gens = [IdGenerator() for _ in range(spec.get("gens", 0))]
+            gens = [make_generator(cfg) for _ in range(spec.get("gens", 0))]
             self.gens = gens
             states = [TaskState(ti, tspec, gens, self) for ti, tspec in enumerate(spec["tasks"])]
             self.states = states
